@@ -52,7 +52,12 @@ pub fn number_regex_parser(config: &SmartCalcConfig, tokinizer: &mut Tokinizer, 
             }
             else if let Some(decimal) = capture.name("DECIMAL") {
                 parse_end = decimal.end();
-                number = match decimal.as_str().replace(&config.thousand_separator[..], "").replace(&config.decimal_seperator[..], ".").parse::<f64>() {
+                /* Internal calculation codes are always written with '.' as decimal separator */
+                let decimal_text = match tokinizer.basic {
+                    true => decimal.as_str().to_string(),
+                    false => decimal.as_str().replace(&config.thousand_separator[..], "").replace(&config.decimal_seperator[..], ".")
+                };
+                number = match decimal_text.parse::<f64>() {
                     Ok(num) => {
                         number_match = Some(decimal);
                         match capture.name("NOTATION") {
